@@ -1,10 +1,14 @@
-import RgVerif.Model.Sx
+import RgVerif.Driver.SearcherCommon
 namespace RgVerif.Driver.C16
-open RgVerif
+open RgVerif RgVerif.Driver.SearcherCommon
 
-/-- Request handler of property C16: `cmd` is the first token of the line, `args` the rest. -/
+/-- Request handler of property C16: `c16.model cfg matcher inp sink` (M; the spec side of C16 is the
+prefix rule, computed by the harness from the uninterrupted model/impl run), `c16.path cfg matcher`. -/
 def handle (cmd : String) (args : List Sx) : String :=
-  match cmd, args with
-  | _, _ => "bad-op"
+  match cmd with
+  | "c16.model" => handleModel args
+  | "c16.spec" => handleSpec args
+  | "c16.path" => handlePath args
+  | _ => "bad-op"
 
 end RgVerif.Driver.C16
